@@ -198,6 +198,9 @@ class EvalArm(Obligation):
         nk = prog.enum_key('number::Number')
         if nk: sem.set_number_variants(prog.enums[nk])
         e = eng_mod.Engine(prog, step_limit=self.limits.get('steps', 20000), timeout_ms=self.limits.get('timeout_ms', 30000), seed=ctx.seed)
+        e.abstract_fdiv = bool(self.limits.get('abstract_fdiv'))
+        e.deadline = time.time() + self.limits.get('max_wall_s', 600 if ctx.tier == 'quick' else 3600)
+        if 'branch_timeout_ms' in self.limits: e.branch_timeout_ms = self.limits['branch_timeout_ms']
         st = eng_mod.State()
         profile = 'dev' if self.oc else 'release'
         runner = ctx.runner(profile)
@@ -310,6 +313,7 @@ class EvalArm(Obligation):
                     pred = predicted_of(out, cz)
                 except Unsupported as ex:
                     return 'unsupported: ' + str(ex)
+                if stt == 'NOWITNESS': return 'nowitness'
                 nat = stt if stt in ('PANIC', 'ERR', 'TIMEOUT') else stt + ' ' + payload
                 if pred != nat and not (pred == 'TIMEOUT' and stt == 'TIMEOUT') and not (pred.endswith('dec?') and nat.startswith('OK')):
                     res['replay_mismatch'].append(dict(sexpr=sx, predicted=pred, native=nat + (' ' + payload if stt == 'PANIC' else ''), obligation=self.name))
@@ -339,6 +343,21 @@ class EvalArm(Obligation):
             res['paths'] += 1
             out = self.outcome_of(p, e)
             viol_here = False
+            if out[0] == 'limit' and not getattr(self, 'limit_is_violation', True):
+                # exploration cut at the step bound (value-dependent loop; termination is C02's subject): replay the model natively so
+                # that at least this representative is known not to panic, and report the truncation in the evidence
+                res['truncated'] = res.get('truncated', 0) + 1
+                if res['truncated'] <= 3:
+                    try:
+                        cm = concrete_model([])
+                        if cm is not None:
+                            sx, stt, payload, us = native_of(cm[1])
+                            if stt in ('PANIC', 'TIMEOUT'):
+                                res['confirmed'].append(dict(sexpr=sx, native=stt + ' ' + payload, profile=profile, what=('panic: ' if stt == 'PANIC' else 'does not terminate: ') + payload[:80], us=us,
+                                                             key='%s|%s|%s|%s|%s' % (self.ev, self.kind, stt.lower(), profile, payload[:60]), obligation=self.name))
+                    except Unsupported:
+                        pass
+                return
             for cond, oc_ in ref:
                 if e.check(cond) != z3.sat: continue
                 res['obligations'] += 1
@@ -379,6 +398,9 @@ class EvalArm(Obligation):
                     pass
                 elif c == 'nomodel':
                     res['discharged'] += 1
+                elif c == 'nowitness':
+                    # abstract decimals: the operation may fail according to the model, but no boundary value makes the real code do so
+                    res.setdefault('unconfirmed_abstract', []).append('%s: %s' % (self.name, what))
                 else:
                     res['inconclusive'].append('%s: %s' % (self.name, c))
             # validation replay of the path itself
@@ -390,7 +412,13 @@ class EvalArm(Obligation):
                         return
                     m, cz = cm
                     sx, stt, payload, us = native_of(cz)
+                    if stt == 'NOWITNESS':
+                        res['spurious'] = res.get('spurious', 0) + 1; return
                     pred = predicted_of(out, cz)
+                    if stt in ('PANIC', 'TIMEOUT') and pred not in ('PANIC', 'TIMEOUT'):
+                        res['confirmed'].append(dict(sexpr=sx, native=stt + ' ' + payload, profile=profile, what=('panic: ' if stt == 'PANIC' else 'does not terminate: ') + payload[:80], us=us,
+                                                     key='%s|%s|%s|%s|%s' % (self.ev, self.kind, stt.lower(), profile, payload[:60]), obligation=self.name))
+                        return
                     nat = stt if stt in ('PANIC', 'ERR', 'TIMEOUT') else stt + ' ' + payload
                     res['replayed'] += 1
                     if pred != nat and not (pred.endswith('dec?') and nat.startswith('OK')):
@@ -400,8 +428,11 @@ class EvalArm(Obligation):
                 except Unsupported as ex:
                     res['inconclusive'].append('%s: replay unsupported: %s' % (self.name, ex))
         t0 = time.time()
+        e.max_paths = self.limits.get('max_paths')
         try:
             e.explore(entry, args, on_path, state=st)
+        except eng_mod.StopExploration:
+            res['truncated'] = res.get('truncated', 0) + 1; res['path_budget_hit'] = True
         except Unsupported as ex:
             res['inconclusive'].append('%s: unsupported: %s' % (self.name, ex))
         except Exception as ex:
@@ -409,7 +440,7 @@ class EvalArm(Obligation):
         res['wall_s'] = round(time.time() - t0, 3)
         res['queries'] = dict(e.stats.queries); res['solver_s'] = round(e.stats.solver_s, 3); res['transitions'] = e.stats.transitions
         res['fns'] = sorted(e.stats.fns); res['summaries'] = sorted(e.stats.summaries)
-        res['unknowns'] = e.unknowns[:3]
+        res['unknowns'] = e.unknowns[:3]; res['assumed_feasible'] = e.assumed_feasible
         return res
 
 
@@ -431,8 +462,13 @@ def _worker(i):
 
 def _worker_inner(i):
     ob = _OBS[i]
+    t0 = time.time()
     try:
-        return ob.run(_CTX)
+        r = ob.run(_CTX)
+        if os.environ.get('VERIF_PROGRESS'):
+            with open(os.environ['VERIF_PROGRESS'], 'a') as f:
+                f.write('%8.1f %6d %s %s\n' % (time.time() - t0, r.get('paths', 0), ob.name, 'INC' if r.get('inconclusive') else ''))
+        return r
     except Exception:
         return dict(name=ob.name, paths=0, obligations=0, discharged=0, confirmed=[], inconclusive=['%s: crashed: %s' % (ob.name, traceback.format_exc()[-800:])],
                     replayed=0, replay_mismatch=[], samples=[], queries={}, solver_s=0, transitions=0, fns=[], summaries=[], wall_s=0)
@@ -524,10 +560,18 @@ def finish(ctx, results, bounds, level_text, outside, extra=None):
         ],
         wall_s=wall, violations=len(new),
     )
+    unc = [x for r in results for x in r.get('unconfirmed_abstract', [])]
+    if unc:
+        ev['coverage']['unconfirmed_candidates_on_abstract_decimals'] = dict(count=len(unc), examples=sorted(set(unc))[:10],
+            note='paths on which a rust_decimal operation that can panic is reached unguarded according to the abstract model, but for which no value of the boundary pool makes the compiled code panic; reported, not counted as violations')
     ua = collections.Counter(x for r in results for x in r.get('unspellable_accepts', []))
     if ua:
         ev['coverage']['accepted_streams_no_string_spells'] = dict(count=sum(ua.values()), distinct=len(ua), examples=[k for k, _ in ua.most_common(8)],
                                                                    note='token streams the parser accepts although the reference rejects them, but which no input string can produce (the tokenizer never yields them); reported, not a violation')
+    tr = sum(r.get('truncated', 0) for r in results)
+    if tr: ev['coverage']['paths_cut_at_step_bound'] = dict(count=tr, note='paths through value-dependent loops that were cut at the step bound of the obligation (their termination is the subject of C02); a model of each of the first such paths per obligation was replayed natively')
+    af = sum(r.get('assumed_feasible', 0) for r in results)
+    if af: ev['coverage']['branches_kept_on_solver_timeout'] = af
     if extra: ev['coverage'].update(extra)
     os.makedirs(os.path.join(VERIF, 'evidence'), exist_ok=True)
     json.dump(ev, open(os.path.join(VERIF, 'evidence', prop + '.json'), 'w'), indent=1, default=str)
